@@ -121,7 +121,8 @@ def jobs(tier):
         js += [_route(1, r, ac=1), _route(1, r, dup=1), _route(1, r, dup=1, ac=1)]
     for k in (1, 2, 3, 5) + ((4,) if _c09_fixed() else ()):
         for r in (0, 1, 2, 4, 5, 6):
-            js.append(_route(k, r, oneshot=1, fire=1, ac=1 if k == 1 else 0))
+            if r != 4:      # the source is gone after it fired: nothing left to deregister explicitly
+                js.append(_route(k, r, oneshot=1, fire=1, ac=1 if k == 1 else 0))
             js.append(_route(k, r, oneshot=1, fire=0, ac=1 if k == 1 else 0))
         for r in (3, 7):
             js.append(_route(k, r, oneshot=1, ac=1 if k == 1 else 0))
